@@ -407,6 +407,19 @@ def run_rename_relevance(prog, tier, repo):
     if len(tests) != 1:
         res.cannot_decide(f'the range test of the renamer (found {len(tests)})')
         return [res]
+    # the test has to ask for *containment*: an expression is relevant when a definition / use lies inside it. A weaker relation
+    # (overlap) also holds for the definition of `this`, whose location is the whole class: every expression then counts as
+    # relevant and the rewrite walks into literals and class names, which it answers with a panic
+    _tid = next(iter(tests))
+    _own = [bodies[_tid]] + [prog.bodies[c] for c in prog.closures_of.get(_tid, []) if c in prog.bodies]
+    if any(not bl.cleanup and bl.term[0] == 'call' and (callee(bl.term)[1] or '').endswith('Location::contains')
+           for x in _own for bl in x.blocks):
+        res.ok(f'range-test:{bodies[_tid].name}', bodies[_tid].loc(), 'the relevance test is a containment test (Location::contains)')
+    else:
+        res.violation(f'range-test:{bodies[_tid].name}', bodies[_tid].loc(), f'{bodies[_tid].name} decides which expressions the renamer '
+                      f'descends into, but never asks `Location::contains`: with a weaker relation (overlap, comparison of start lines) '
+                      f'the definition of `this` - located at the whole class - makes every expression relevant, and the rewrite aborts '
+                      f'on the first literal or class name it walks into')
 
     def tested_exprs(b):
         """[(block, root, path)] expressions whose loc() is handed to the relevance test"""
@@ -549,4 +562,55 @@ def run_search_no_early_none(prog, tier, repo):
     # positive control: the matcher recognises `?` where the crate uses it (query / completion entry points)
     res.floor('`?` sites recognised elsewhere in the services crate (positive control)', n_ctrl, 10)
     res.analysed['`?` sites inside search functions'] = n
+    return [res]
+
+
+# ---------------------------------------------------------------------------------------------------------------------
+# RENAME-KEEPS-COMMENTS (C15): renaming changes names and nothing else; renaming back has to restore the original program. Where
+# the renamer rebuilds a syntax node that carries a comment slot (`associated_comments`) from an existing node of the same type,
+# the slot of the new node is taken from the old node - not from a default (`Id::from(name)`, `NO_COMMENT_REFERENCE`).
+
+def run_rename_keeps_comments(prog, tier, repo):
+    from ..dataflow import root_local
+    from ..cfg import single_def
+    res = RuleResult('RENAME-KEEPS-COMMENTS', 'C15: a node the renamer rebuilds from an existing node keeps that node\'s comment slot '
+                     '(a comment before a renamed parameter survives the rename, so renaming back restores the program)')
+    mod = 'samlang_services::variable_definition::'
+    n = 0
+    for b in sorted(prog.bodies.values(), key=lambda x: x.name):
+        if not b.name.startswith(mod) or '::tests' in b.name:
+            continue
+        for bl in b.blocks:
+            if bl.cleanup:
+                continue
+            for st in bl.stmts:
+                if not (st[0] == 'a' and st[2][0] == 'agg' and st[2][1][0] == 'adt'):
+                    continue
+                adt = prog.adts.get(st[2][1][1])
+                if adt is None or not adt.name.startswith('samlang_ast::source'):
+                    continue
+                fields = adt.variants[st[2][1][2]].fields
+                ks = [k for k, f in enumerate(fields) if f.name == 'associated_comments']
+                if not ks or ks[0] >= len(st[2][2]):
+                    continue
+                # is a node of the same type available (a parameter / the matched node)?
+                has_src = any(strip_refs(b.locals[i]).k == 'adt' and strip_refs(b.locals[i]).id == adt.id for i in range(1, b.nargs + 1))
+                if not has_src:
+                    continue
+                n += 1
+                o = st[2][2][ks[0]]
+                kth = sum(1 for i in res.instances if i.key.startswith(f'rebuild:{b.name}:{adt.name.split("::")[-1]}#')) + 1
+                key = f'rebuild:{b.name}:{adt.name.split("::")[-1]}#{kth}'
+                good = False
+                if o[0] in ('c', 'm'):
+                    r, p = root_local(b, o[1].local)
+                    full = tuple(p) + tuple(e for e in o[1].proj if e[0] == 'f')
+                    good = 1 <= r <= b.nargs and any(e[0] == 'f' and e[4] == 'associated_comments' for e in full)
+                if good:
+                    res.ok(key, b.loc(st[3]), 'comment slot copied from the node being rebuilt')
+                else:
+                    res.violation(key, b.loc(st[3]), f'{b.name} rebuilds a {adt.name.split("::")[-1]} from an existing one but does not take '
+                                  f'`associated_comments` from it (a default / constant is used): comments written before the renamed '
+                                  f'name disappear from the renamed document, and renaming back does not restore the original program')
+    res.floor('nodes with a comment slot rebuilt by the renamer', n, 1)
     return [res]
